@@ -30,6 +30,7 @@ theorem sum_map_eraseIdx_le {α : Type} (f : α → Nat) (l : List α) (i : Nat)
 
 /-! ### the extracted TTL kernel -/
 
+set_option linter.unusedSimpArgs false in
 /-- whatever statement sequence the extractor recognised: a forwarded TTL is the received one
     minus one and is at least 1 -/
 theorem ttlKernel_some {t v : Nat} (h : Elvis.Gen.routerTtlKernel t = .ok (some v)) : v + 1 = t ∧ 1 ≤ v := by
@@ -38,7 +39,17 @@ theorem ttlKernel_some {t v : Nat} (h : Elvis.Gen.routerTtlKernel t = .ok (some 
   repeat' split at h
   all_goals first
     | (cases h; done)
-    | (simp only [Except.ok.injEq, Option.some.injEq, beq_iff_eq] at *; omega)
+    | (simp only [Except.ok.injEq, Option.some.injEq, beq_iff_eq, decide_eq_true_eq, Bool.not_eq_true,
+        decide_eq_false_iff_not] at *; omega)
+
+set_option linter.unusedSimpArgs false in
+/-- an arriving TTL of at least 2 is forwarded as TTL - 1 -/
+theorem ttlKernel_ge2 {t : Nat} (h : 2 ≤ t) : Elvis.Gen.routerTtlKernel t = .ok (some (t - 1)) := by
+  unfold Elvis.Gen.routerTtlKernel
+  have a : ¬ t < 1 := by omega
+  have b : ¬ t - 1 = 0 := by omega
+  have c : ¬ t ≤ 1 := by omega
+  simp [a, b, c]
 
 /-! ### routerDemux -/
 
